@@ -118,10 +118,16 @@ bool ExprComparator::VisitCall(CallExpr e) {
     if (NumericExpr num_arg = Cast<NumericExpr>(arg)) {
       if (!Equal(num_arg, Cast<NumericExpr>(other_arg)))
         return false;
-    } else if (std::strcmp(
-            Cast<StringLiteral>(arg).value(),
-            Cast<StringLiteral>(other_arg).value()) != 0)
+    } else if (StringLiteral str_arg = Cast<StringLiteral>(arg)) {
+      if (std::strcmp(str_arg.value(),
+                      Cast<StringLiteral>(other_arg).value()) != 0)
+        return false;
+    } else if (!Equal(arg, other_arg)) {
+      // Neither numeric nor a string (symbolic if, logical): compare, or
+      // report as unsupported, like any other expression instead of
+      // dereferencing the null StringLiteral.
       return false;
+    }
   }
   return true;
 }
